@@ -22,8 +22,9 @@ CLAIMS = {
         text="Effect proof under stated assumptions: for each of the concrete classes every public query (look-ups, estimates, "
              "statistics, string conversion, hashes, exports, getters, Bloom set operations) has an empty transitive write effect "
              "on the receiver, on parameter state and on class state (closed over the resolved call graph incl. function-pointer "
-             "slots); set operations never write the non-receiver operand; clear() writes every field a state mutator writes, with "
-             "the constructor's initial value and arrays over their full range. Structural, near-sufficient: what is trusted is the "
+             "slots; reading from a mapping the structure keeps open counts as an effect on its cursor); set operations never write the "
+             "non-receiver operand; clear() writes every field a state mutator writes, with the constructor's initial value and arrays "
+             "zeroed over their full range (a cell may be skipped only where it already is zero). Structural, near-sufficient: what is trusted is the "
              "mutability table of builtin containers and the purity contract of user hash callables.",
         design_ref="DESIGN.md section 4 C19, section 3 E3"),
     "C20": dict(
@@ -101,7 +102,9 @@ CLAIMS = {
              "entry point (path, file object, bytes, hex; 20+ readers): same struct format, every field packed at slot i is "
              "must-assigned from slot i on every reader path, payload taken from the input data with the allocation's typecode and "
              "itemsize x length, expanding frames consumed with an exactly advancing cursor, __bytes__/path export delegate to one "
-             "body, the cuckoo empty-slot marker is outside the fingerprint interval, inherited alternate constructors build cls. "
+             "body (or spell out its emission list), the cuckoo empty-slot marker is outside the fingerprint interval, inherited alternate "
+             "constructors build cls, a raw array initialiser is bytes (not an iterated buffer), Bloom constructors take the documented "
+             "precedence file / hex string / parameters. "
              "Query-by-query equality and byte-exact re-export are consequences, not checked facts.",
         design_ref="DESIGN.md section 4 C05, E6"),
     "C07": dict(
@@ -161,13 +164,15 @@ CLAIMS = {
              "num_els and min(num_els, minimum); remove's no-op exits are guarded exactly by minimum == 0 / == limit before any store. "
              "Counting cuckoo: every bin built for a held entry carries that entry's count (new key: the caller's count, also on the "
              "eviction path; kicked bin: its own), expansion re-inserts each bin with its own count, a present key's add increments "
-             "its bin, remove decrements / drops at zero / is a no-op returning False when absent. Counts under collisions are not decided.",
+             "its bin, check reports the count of the one holding bin (each candidate bucket visited once), remove decrements / drops at zero / "
+             "is a no-op returning False when absent. Counts under collisions are not decided.",
         design_ref="DESIGN.md section 4 C08"),
     "C14": dict(
         technique="pairing and delta agreement between storage events and counter updates per enumerated path; ownership weights; formula conformance",
         text="Structural part: per mutator path the element counter is updated exactly when storage changes and by the matching amount "
              "for all seven structures (table in DESIGN.md section 4 C14), incl. cuckoo success exits (+weight of the entry that entered), "
-             "removals, recount on expansion and load, quotient +1/-1/0/reset; load factors read the counter; estimate_elements and "
+             "removals, recount on expansion and load, quotient +1/-1/0/reset; load factors read the counter over capacity x bucket size (a remembered "
+             "product counts only when every writer of its factors refreshes it); estimate_elements and "
              "current_false_positive_rate conform to the standard formulas and set-operation results take the estimate. Agreement with "
              "an external model of the history is not decided.",
         design_ref="DESIGN.md section 4 C14"),
